@@ -62,11 +62,19 @@ struct Token {
 
 /// issues an SD-JWT over the given claims with two concealed claims
 fn issue(claims: &str, kid: &str, nonce: Option<&str>, sk: &Sk, salt: &str) -> Token {
+  issue_with(claims, kid, nonce, sk, salt, &[])
+}
+
+/// `extra`: further JSON pointers to conceal (registered claims); their disclosures follow the two degree disclosures
+fn issue_with(claims: &str, kid: &str, nonce: Option<&str>, sk: &Sk, salt: &str, extra: &[&str]) -> Token {
   let mut enc = SdObjectEncoder::new(claims).unwrap();
-  let d: Vec<String> = vec![
+  let mut d: Vec<String> = vec![
     enc.conceal("/vc/credentialSubject/degree/type", Some(format!("{salt}-1"))).unwrap().to_string(),
     enc.conceal("/vc/credentialSubject/degree/name", Some(format!("{salt}-2"))).unwrap().to_string(),
   ];
+  for (k, p) in extra.iter().enumerate() {
+    d.push(enc.conceal(p, Some(format!("{salt}-x{k}"))).unwrap().to_string());
+  }
   enc.add_sd_alg_property();
   let payload = enc.try_to_string().unwrap();
   let jwt = sign_jwt(&payload, Some(kid), nonce, sk);
@@ -90,20 +98,31 @@ fn cred_row(case: &Value, w: &World) -> Vec<(String, Value, Value)> {
   };
   let sk = if s(&r["signed_with"]) == "issuer_key" { &w.base.k1 } else { &w.base.k2 };
   let nonce = if s(&r["nonce_hdr"]) == "a" { Some("nonce-a") } else { None };
-  let tok = issue(&claims, kid, nonce, sk, "salt");
-  let other = issue(&claims, kid, nonce, sk, "other-token-salt");
+  let extra: &[&str] = match s(&r["concealed"]) {
+    "iss" => &["/iss"],
+    "exp" => &["/exp"],
+    "iss_exp" => &["/iss", "/exp"],
+    _ => &[],
+  };
+  let tok = issue_with(&claims, kid, nonce, sk, "salt", extra);
+  let other = issue_with(&claims, kid, nonce, sk, "other-token-salt", extra);
+  let extras: Vec<String> = tok.disclosures[2..].to_vec();
+  let with_extras = |mut v: Vec<String>| {
+    v.extend(extras.iter().cloned());
+    v
+  };
   let disclosures: Vec<String> = match s(&r["disclosures"]) {
     "all" => tok.disclosures.clone(),
-    "subset" => vec![tok.disclosures[1].clone()],
+    "subset" => with_extras(vec![tok.disclosures[1].clone()]),
     "none" => vec![],
-    "reordered" => vec![tok.disclosures[1].clone(), tok.disclosures[0].clone()],
+    "reordered" => tok.disclosures.iter().rev().cloned().collect(),
     "forged_extra" => {
       let mut d = tok.disclosures.clone();
       d.push(identity_jose::jwu::encode_b64(br#"["forged-salt","admin",true]"#));
       d
     }
-    "for_other_token" => vec![tok.disclosures[0].clone(), other.disclosures[1].clone()],
-    _ => vec![tok.disclosures[0].clone(), tok.disclosures[0].clone()],
+    "for_other_token" => with_extras(vec![tok.disclosures[0].clone(), other.disclosures[1].clone()]),
+    _ => with_extras(vec![tok.disclosures[0].clone(), tok.disclosures[0].clone()]),
   };
   let sd = SdJwt::new(tok.jwt.clone(), disclosures.clone(), None);
   let mut v = JwsVerificationOptions::new();
@@ -165,8 +184,12 @@ fn kb_row(case: &Value, w: &World) -> Vec<(String, Value, Value)> {
     _ => presented.clone(),
   };
   let mut kb_claims = KeyBindingJwtClaims::new(&Sha256Hasher::new(), tok.jwt.clone(), hashed_over, "nonce-1".to_string(), "did:example:verifier".to_string(), iat);
-  if s(&r["sd_hash"]) == "wrong" {
-    kb_claims.sd_hash = "AAAAAAAAAAAAAAAAAAAAAAAAAAAAAAAAAAAAAAAAAAA".to_string();
+  match s(&r["sd_hash"]) {
+    "wrong" => kb_claims.sd_hash = "AAAAAAAAAAAAAAAAAAAAAAAAAAAAAAAAAAAAAAAAAAA".to_string(),
+    "empty" => kb_claims.sd_hash = String::new(),
+    "prefix_of_right" => kb_claims.sd_hash.truncate(20),
+    "right_plus_suffix" => kb_claims.sd_hash.push_str("AA"),
+    _ => {}
   }
   let kb_text = serde_json::to_string(&kb_claims).unwrap();
   let mut h = JwsHeader::new();
